@@ -8,7 +8,7 @@ REPO = os.environ.get("VERIF_REPO", "/repo")
 
 class H:
     def __init__(self, name, body, props, desc, cfg="std", expect="pass", tier="quick",
-                 unwind=None, cost=5, timeout=1200, args="", seed_pick=None):
+                 unwind=None, cost=5, timeout=1200, args="", seed_pick=None, fast=None):
         self.name = name
         self.body = body          # Rust path below crate::, generic over Nd
         self.props = props        # property ids this harness serves
@@ -21,6 +21,10 @@ class H:
         self.timeout = timeout
         self.args = args          # extra Rust arguments after `nd`
         self.seed_pick = seed_pick  # None or function(seed) -> bool: in quick tier only if True
+        # fast: run with --no-assertion-reach-checks --no-memory-safety-checks (scanner harnesses:
+        # vacuity is covered by the kani::cover witnesses; the crate has no raw-pointer code and the
+        # pointer checks stay on in all message-level harnesses). Default: on for unwind-17 harnesses.
+        self.fast = (unwind is not None and unwind >= 17) if fast is None else fast
 
 
 _STATIC = []
@@ -287,6 +291,119 @@ for (_a, _b) in [(0, 1), (7, 8), (15, 0), (3, 11)]:
         "literal: 4 symbolic events on channels %d/%d interleaved vs. own scanners" % (_a, _b),
         args="%d, %d" % (_a, _b), unwind=17, cost=40)
 add("nrpn_twin", "pnm::twin", ["C09", "C10", "C11"], "witness twin", expect="witness_fail", unwind=17)
+
+# ------------------------------------------------------------------------------------------------
+# C12, C13, C14 and the polling part of C15, C16, C17
+# ------------------------------------------------------------------------------------------------
+prop("C12",
+     bounds="(a) one-step induction: every valid abstract state of the family x every timeout "
+            "(u64 s, ns) x every time x every Control Change / poll / reset, post-state compared with the "
+            "scanner rebuilt from the advanced observer; families: quick = step channel alone (SIM) and "
+            "with its xor-8 / xor-1 neighbours (TRI); thorough adds ALL16 where it finishes; (b) literal "
+            "sentences of the documented grammar: number selection in either order + up to 3 units with "
+            "symbolic early polls; (c) encode/feed/poll round trip of every ParameterNumberMessage in "
+            "either byte order from every family state; unwind 17",
+     outside="interference that needs four or more simultaneously non-initial channels (quick); "
+             "sentences longer than 3 units are covered only through the induction step")
+prop("C13",
+     bounds="poll step from every valid abstract state of the family (SIM, TRI; thorough: ALL16) with "
+            "symbolic now >= arrival and symbolic timeout over the full Duration domain (0, tiny, "
+            "u64::MAX seconds); feed at two arbitrary instants returns identical outputs; unwind 17",
+     outside="the real std::time::Instant (replaced by the mock clock hook); four or more "
+             "simultaneously non-initial channels in the quick tier")
+prop("C14",
+     bounds="feed / poll / reset step from every valid abstract state of the family with the C14 clauses "
+            "asserted on (pre-state, event, real outputs) independently of the observer's transition "
+            "function; full message alphabet (step message arbitrary, malformed and mixed "
+            "registered/non-registered traffic included); families as C12",
+     outside="as C12")
+prop("C15",
+     bounds="all three scanners: post-state equals the observer with ONLY the addressed channel advanced, "
+            "for families CC14: ALL16; (N)RPN: TRI (quick) / ALL16 (thorough); polling: SIM+TRI (quick) / "
+            "ALL16 (thorough); output channel = input channel; system messages (all 16 status bytes "
+            "0xF0-0xFF x all data) report nothing and leave every family state equal; literal 4-event "
+            "interleavings on channel pairs vs. own scanners",
+     outside="polling / (N)RPN quick tier: interference needing four or more non-initial channels")
+prop("C16",
+     bounds="from every family state of each scanner: every non-Control-Change message (status symbolic, "
+            "all data) and every Control Change with a non-contributing controller number (all values): "
+            "nothing reported, state equal (derived PartialEq); the four ControllerNumber predicates on "
+            "all 128 numbers; every *_LSB constant found in /repo/src equals its MSB constant + 32",
+     outside="as C15")
+prop("C17",
+     bounds="from every family state of each scanner: reset() == new() (same timeout for the polling "
+            "scanner, timeout symbolic over the full Duration domain), new() == default(), polling "
+            "default() == new(0); a copy stepped with the same event gives the same output and state and "
+            "leaves the original's earlier copy untouched; equality of states implies equal continuations "
+            "because the scanners are plain Copy values whose behaviour is a function of the compared state",
+     outside="as C15")
+def _pick(n):
+    """quick tier: channel 0, channel 15 and n seed-chosen further channels"""
+    def f(seed, c):
+        chosen = {0, 15}
+        x = seed * 2654435761 % (1 << 32)
+        for _ in range(n):
+            x = (x * 1103515245 + 12345) % (1 << 31)
+            chosen.add((x >> 8) % 16)
+        return c in chosen
+    return f
+
+
+KINDS = ["7bit", "14bit", "increment", "decrement"]
+for _c in range(16):
+    for _fam, _mask in (("sim", 1 << _c), ("tri", _mask3(_c)), ("all16", 0xFFFF)):
+        _tier = "quick" if _fam != "all16" else "thorough"
+        _pk = None if _fam == "sim" else (lambda seed, c=_c: _pick(1)(seed, c))
+        _cost = {"sim": 60, "tri": 120, "all16": 2000}[_fam]
+        add("poll_step_feed_%s_ch%02d" % (_fam, _c), "poll::step_feed",
+            ["C12", "C13", "C14", "C15", "C16", "C04", "C18"],
+            "family %s (mask 0x%04x): every abstract state x timeout x time x every Control Change on "
+            "channel %d" % (_fam, _mask, _c), args="0x%04x, %d" % (_mask, _c), unwind=17, cost=_cost,
+            tier=_tier, timeout=10800, seed_pick=_pk)
+        add("poll_step_poll_%s_ch%02d" % (_fam, _c), "poll::step_poll",
+            ["C13", "C12", "C14", "C15", "C18"],
+            "family %s (mask 0x%04x): every abstract state x timeout x time: poll(%d)" % (_fam, _mask, _c),
+            args="0x%04x, %d" % (_mask, _c), unwind=17, cost=_cost * 0.6, tier=_tier, timeout=10800,
+            seed_pick=_pk)
+    add("poll_time_independent_ch%02d" % _c, "poll::feed_time_independent", ["C13", "C18"],
+        "channel %d arbitrary: feed at two arbitrary instants returns identical outputs" % _c,
+        args="0x%04x, %d" % (1 << _c, _c), unwind=17, cost=60,
+        seed_pick=(lambda seed, c=_c: _pick(0)(seed, c)))
+    for _k, _kn in enumerate(KINDS):
+        add("poll_roundtrip_%s_ch%02d" % (_kn, _c), "poll::roundtrip", ["C12", "C18"],
+            "channel %d arbitrary x every %s message, either byte order, arbitrary non-decreasing feed "
+            "times, poll after the timeout: exactly that message (after at most a flush)" % (_c, _kn),
+            args="0x%04x, %d, %d" % (1 << _c, _c, _k), unwind=17, cost=80,
+            seed_pick=(lambda seed, c=_c: _pick(0)(seed, c)))
+    add("poll_sentences_ch%02d" % _c, "poll::sentences", ["C12", "C13", "C14", "C16", "C18"],
+        "channel %d: literal sentences of the documented grammar, 3 units, early polls, non-contributing "
+        "messages, symbolic times and timeout, final poll" % _c, args="%d" % _c, unwind=17, cost=150,
+        seed_pick=(lambda seed, c=_c: _pick(0)(seed, c)), timeout=3600)
+    add("poll_order_lemma_tri_ch%02d" % _c, "poll::order_lemma", ["C15", "C12", "C13", "C14"],
+        "family tri: generating channel %d last equals the canonical concretisation" % _c,
+        args="0x%04x, %d" % (_mask3(_c), _c), unwind=17, cost=100,
+        seed_pick=(lambda seed, c=_c: _pick(1)(seed, c)))
+    add("poll_order_lemma_all16_ch%02d" % _c, "poll::order_lemma", ["C15", "C12", "C13", "C14"],
+        "family all16: generating channel %d last equals the canonical concretisation" % _c,
+        args="0xFFFF, %d" % _c, unwind=17, cost=2000, tier="thorough", timeout=10800)
+add("poll_step_other", "poll::step_other", ["C16", "C15", "C12", "C18"],
+    "channels 0,5,10,15 arbitrary x every message that is not a Control Change: nothing reported, state equal",
+    args="0x8421", unwind=17, cost=120)
+add("poll_step_other_all16", "poll::step_other", ["C16", "C15", "C18"],
+    "ALL16 x every message that is not a Control Change: nothing reported, state equal",
+    args="0xFFFF", unwind=17, cost=1500, tier="thorough", timeout=10800)
+add("poll_reset_and_copy", "poll::reset_and_copy", ["C17", "C13", "C12", "C18"],
+    "channels 0,5,10,15 arbitrary, timeout symbolic: reset() == new(timeout); default() == new(0); "
+    "copies evolve identically", args="0x8421", unwind=17, cost=120)
+add("poll_reset_and_copy_all16", "poll::reset_and_copy", ["C17", "C18"],
+    "ALL16, timeout symbolic: reset() == new(timeout); copies evolve identically",
+    args="0xFFFF", unwind=17, cost=1500, tier="thorough", timeout=10800)
+for (_a, _b) in [(0, 1), (7, 8), (15, 0), (3, 11)]:
+    add("poll_interleave_%d_%d" % (_a, _b), "poll::interleave", ["C15", "C18"],
+        "literal: 4 symbolic events (feed or poll, symbolic times) on channels %d/%d interleaved vs. own "
+        "scanners" % (_a, _b), args="%d, %d" % (_a, _b), unwind=17, cost=100)
+add("poll_twin", "poll::twin", ["C12", "C13", "C14", "C15", "C16", "C17"], "witness twin",
+    expect="witness_fail", unwind=17)
 
 # ------------------------------------------------------------------------------------------------
 
